@@ -14,7 +14,7 @@ static long g_idx, st_programs, st_renderings, st_viol, st_emul;
 static char *seen[300];
 static int nseen, nsamples;
 
-typedef struct { int crlf, indent, sep, comments, blank, lit, tnames, lastnl; } Fmt;
+typedef struct { int crlf, indent, sep, comments, blank, lit, tnames, lastnl, ws; } Fmt;	/* ws: 0 blanks are spaces, 1 every blank is a TAB */
 
 static const char *indents[] = { "", "  ", "\t" };
 static const char *seps[] = { ", ", ",", " ", " , " };
@@ -212,21 +212,31 @@ static void on_prog (VProg * vp, void *user)
   for (inl = 0; inl < (has_const ? 2 : 1); inl++) {
     for (f.crlf = 0; f.crlf < 2; f.crlf++) for (f.indent = 0; f.indent < 3; f.indent++) for (f.sep = 0; f.sep < 4; f.sep++)
       for (f.comments = 0; f.comments < 3; f.comments++) for (f.blank = 0; f.blank < 2; f.blank++) for (f.lit = 0; f.lit < (has_const ? 3 : 1); f.lit++)
-        for (f.tnames = 0; f.tnames < 2; f.tnames++) for (f.lastnl = 0; f.lastnl < 2; f.lastnl++) {
+        for (f.tnames = 0; f.tnames < 2; f.tnames++) for (f.lastnl = 0; f.lastnl < 2; f.lastnl++) for (f.ws = 0; f.ws < 2; f.ws++) {
           OrcProgram **progs = NULL;
           OrcParseError **errors = NULL;
           int np = 0, ne = 0;
           const char *m;
           /* quick tier: the full cross product for every 16th program, a covering subset (each choice varied alone + two mixes) otherwise */
           if (!thorough && (idx % 16) != 0) {
-            int nondefault = (f.crlf != 0) + (f.indent != 0) + (f.sep != 0) + (f.comments != 0) + (f.blank != 0) + (f.lit != 0) + (f.tnames != 0) + (f.lastnl != 1);
-            int allmax = f.crlf == 1 && f.indent == 2 && f.sep == 3 && f.comments == 2 && f.blank == 1 && f.tnames == 1 && f.lastnl == 0;
+            int nondefault = (f.crlf != 0) + (f.indent != 0) + (f.sep != 0) + (f.comments != 0) + (f.blank != 0) + (f.lit != 0) + (f.tnames != 0) + (f.lastnl != 1) + (f.ws != 0);
+            int allmax = f.crlf == 1 && f.indent == 2 && f.sep == 3 && f.comments == 2 && f.blank == 1 && f.tnames == 1 && f.lastnl == 0 && f.ws == 1;
             if (nondefault > 1 && !allmax) continue;
           }
           /* the twin: API-built program with the same type names when the text carries them */
           twin = vprog_build (vp);
           if (f.tnames) for (i = 0; i < vp->nv; i++) if (vp->v[i].kind == VK_D || vp->v[i].kind == VK_S || vp->v[i].kind == VK_A) orc_program_set_type_name (twin, vp->v[i].idx, type_name_for (&vp->v[i]));
           render (vp, &f, text, sizeof (text), inl);
+          if (f.ws) {
+            /* every blank outside comments becomes a TAB: between directive tokens, after the opcode, after commas */
+            char *c;
+            int incomment = 0;
+            for (c = text; *c; c++) {
+              if (*c == '#') incomment = 1;
+              else if (*c == '\n') incomment = 0;
+              else if (*c == ' ' && !incomment) *c = '\t';
+            }
+          }
           nrend++;
           st_renderings++;
           orc_parse_code (text, &progs, &np, &errors, &ne);
